@@ -310,6 +310,12 @@ func doParsing(mp *msgParser) (err error) {
 		err = parseError{OrigError: fmt.Sprintf("Incorrect Message Length, expected %d, got %d", bodyLength, length)}
 	}
 
+	// A message carrying XMLData is held to its BodyLength as well: the data field is counted
+	// with its full length above.
+	if err == nil && xmlDataMsg && length != bodyLength {
+		err = parseError{OrigError: fmt.Sprintf("Incorrect Message Length, expected %d, got %d", bodyLength, length)}
+	}
+
 	return
 }
 
